@@ -12,7 +12,7 @@ from gen_script import Gen
 
 PROP = "C19"
 NEEDS = ["model/Values.v", "model/Eval.v", "proofs/TransformP.v", "proofs/LoadP.v", "gen/Facts.v", "proofs/FactsP.v", "extract/Extract.v"]
-NAMES = ["a", "ab", "abc", "b", "beta", "bet", "al", "alpha", "alp", "p", "par", "pa", "x", "xy", "th", "theta", "e", "r", "ph", "phi", "t", "et", "eta"]
+NAMES = ["a", "ab", "abc", "b", "beta", "bet", "al", "alpha", "alp", "p", "par", "pa", "x", "xy", "th", "theta", "e", "r", "ph", "phi", "t", "et", "eta", "y", "var", "res", "val", "lambda", "is", "E", "I", "S", "N", "oo", "rhs", "np"]
 
 
 def multi_param_script(rng):
@@ -92,12 +92,20 @@ def run(tier, seed):
         for i in range(10 if quick else 100):
             modes = rng.sample([1, 8, 33, 100, 257, 1024, 4097, 65537, 5, 64], rng.randint(2, 5))
             sub = "name sub\nversion 1.0\n\n" + "".join("Rgate(%d) | %d\n" % (m, m) for m in modes)
+            kw = ""
+            if i % 2 == 1:
+                # a template whose arguments mention several parameters asymmetrically: the binding must not depend on set order
+                ps = rng.sample(NAMES, rng.randint(2, 4))
+                forms = ["{%s} - 2 * {%s}", "{%s} / {%s}", "{%s} ** 2 + {%s}", "3 * {%s} - {%s} / 7"]
+                sub += "".join("Dgate(%s, %s) | %d\n" % (rng.choice(forms) % tuple(rng.sample(ps, 2)), rng.choice(forms) % tuple(rng.sample(ps, 2)), modes[0]) for _ in range(3))
+                sub += "".join("Kgate({%s}) | %d\n" % (p_, modes[0]) for p_ in ps)
+                kw = "(%s)" % ", ".join("%s=%s" % (p_, rng.choice(["0.5", "0.125", "3", "1.75", "7"])) for p_ in ps)
             d = os.path.join(scratch, "I%d" % i)
             os.makedirs(d)
             open(os.path.join(d, "sub.xbb"), "w").write(sub)
             call = list(range(len(modes)))
             rng.shuffle(call)
-            main = 'name main\nversion 1.0\ninclude "sub.xbb"\n\nsub | [%s]\nsub | [%s]\n' % (", ".join(map(str, call)), ", ".join(str(c + 10) for c in call))
+            main = 'name main\nversion 1.0\ninclude "sub.xbb"\n\nsub%s | [%s]\nsub%s | [%s]\n' % (kw, ", ".join(map(str, call)), kw, ", ".join(str(c + 10) for c in call))
             open(os.path.join(d, "main.xbb"), "w").write(main)
             items.append({"kind": "load", "path": os.path.join(d, "main.xbb")})
             if i % 3 == 0:
